@@ -15,7 +15,11 @@ fn main() {
         std::env::set_var("OUT_DIR", out_dir);
         match helper {
             "cargo_build" => varlink_generator::cargo_build(file),
-            "cargo_build_many" => varlink_generator::cargo_build_many(&[file]),
+            "cargo_build_many" => {
+                // further files may follow: one call with several definitions
+                let files: Vec<&str> = raw[4..].iter().map(|s| s.as_str()).collect();
+                varlink_generator::cargo_build_many(&files)
+            }
             _ => varlink_generator::cargo_build_tosource(file, false),
         }
         std::process::exit(0);
